@@ -37,15 +37,18 @@ import (
 )
 
 var (
+	// Separator and Successor must not be pebble.DefaultComparer's: their bytewise shortening is
+	// not order-preserving under CompareWithSlash (Separator("a.", "a0") = "a/", which sorts
+	// after "a0"). Returning the key unchanged is always a valid separator / successor.
 	OxiaSlashSpanComparer = &pebble.Comparer{
 		Compare:            compare.CompareWithSlash,
 		Equal:              pebble.DefaultComparer.Equal,
 		AbbreviatedKey:     compare.AbbreviatedKeyDisableSlash,
 		FormatKey:          pebble.DefaultComparer.FormatKey,
 		FormatValue:        pebble.DefaultComparer.FormatValue,
-		Separator:          pebble.DefaultComparer.Separator,
+		Separator:          func(dst, a, _ []byte) []byte { return append(dst, a...) },
 		Split:              pebble.DefaultComparer.Split,
-		Successor:          pebble.DefaultComparer.Successor,
+		Successor:          func(dst, a []byte) []byte { return append(dst, a...) },
 		ImmediateSuccessor: pebble.DefaultComparer.ImmediateSuccessor,
 		Name:               "oxia-slash-spans",
 	}
